@@ -73,3 +73,54 @@ func VerifC04_Tests() {
 		zzverif.Fail("a router test returned neither a result object nor an error value")
 	}
 }
+
+// VerifC04_NumberFormat: "in any context": the number tests (has_number,
+// has_number_eq/lt/lte/gt/gte/between) in an environment whose number format
+// uses other symbols than the default — the digit grouping and the decimal
+// symbol each one of: a period, a comma, an apostrophe, a space, a
+// non-breaking space (the French and Russian grouping symbol), or one
+// arbitrary printable ASCII character — on a text that contains a grouped
+// number: no panic, a result object or an error value.
+// cover: space-grouping, non-breaking-space, arbitrary-symbol, result-object
+func VerifC04_NumberFormat() {
+	zzverif.Unwind(2000)
+	symbol := func(name string) string {
+		k := zzverif.Choice(name, 6)
+		switch k {
+		case 3:
+			zzverif.Cover("space-grouping")
+		case 4:
+			zzverif.Cover("non-breaking-space")
+		case 5:
+			zzverif.Cover("arbitrary-symbol")
+			c := zzverif.Byte(name + "-character")
+			zzverif.Assume(c > ' ' && c < 0x7f)
+			return string([]byte{c})
+		}
+		return []string{".", ",", "'", " ", " ", ""}[k]
+	}
+	grouping := symbol("digit-grouping-symbol")
+	decimalSymbol := "."
+	if zzverif.Choice("vary-decimal-symbol", 2) == 1 {
+		decimalSymbol, grouping = symbol("decimal-symbol"), ","
+	}
+	env := envs.NewBuilder().WithNumberFormat(&envs.NumberFormat{DecimalSymbol: decimalSymbol, DigitGroupingSymbol: grouping}).Build()
+	names := []string{"has_number", "has_number_eq", "has_number_lt", "has_number_lte", "has_number_gt", "has_number_gte", "has_number_between"}
+	name := names[zzverif.Choice("test", len(names))]
+	args := []types.XValue{types.NewXText("I have 1" + grouping + "000" + decimalSymbol + "5 things")}
+	switch name {
+	case "has_number":
+	case "has_number_between":
+		args = append(args, types.NewXNumberFromInt(1), types.NewXNumberFromInt(2000))
+	default:
+		args = append(args, types.NewXNumberFromInt(1000))
+	}
+	res := XTESTS[name].Call(env, args)
+	switch res.(type) {
+	case *types.XError:
+	case *types.XObject:
+		zzverif.Cover("result-object")
+	default:
+		zzverif.Fail("a router test returned neither a result object nor an error value")
+	}
+}
